@@ -254,7 +254,9 @@ def refresh_cases(rng, root, n):
     lines, samples = [], []
     ops = ["none", "same_content", "other_content_same_size_mtime_kept", "other_content_same_size", "other_size", "chmod",
            "replace_same_content_mtime_kept", "replace_other_content_mtime_kept", "delete", "delete_recreate_same", "touch",
-           "other_content_same_size_mtime_kept_chmod", "start_unknown_create", "start_unknown_absent"]
+           "other_content_same_size_mtime_kept_chmod", "start_unknown_create", "start_unknown_absent",
+           # rewritten in place (same inode, size, mode) with a modification time that differs only slightly
+           "other_content_same_size_mtime_close", "other_content_same_size_mtime_close"]
     for i in range(n):
         path = os.path.join(root, f"f{i}.txt")
         op = ops[i % len(ops)] if i < 3 * len(ops) else rng.choice(ops)
@@ -267,7 +269,9 @@ def refresh_cases(rng, root, n):
         else:
             with open(path, "wb") as fh_:
                 fh_.write(content)
-            os.utime(path, ns=(10**18 + i * 10**9, 10**18 + i * 10**9 + rng.randrange(10**6)))
+            # recorded modification times: around 2001 and present-day epochs (float spacing differs)
+            base = 10**18 if i % 2 == 0 else 1_790_000_000 * 10**9
+            os.utime(path, ns=(base + i * 10**9, base + i * 10**9 + rng.randrange(10**6)))
             rec = FileHash.unknown().refreshed(path)
             st = os.stat(path)
             other = bytes((c + 1) % 256 for c in content) if content else b"q"
@@ -279,6 +283,9 @@ def refresh_cases(rng, root, n):
                     fh_.write(other if content else b"")
                 if "mtime_kept" in op:
                     os.utime(path, ns=(st.st_atime_ns, st.st_mtime_ns))
+                if "mtime_close" in op:
+                    delta = rng.choice([2_000, 40_000, 500_000, 3_000_000, 250_000_000, 900_000_000, 1_500_000_000])
+                    os.utime(path, ns=(st.st_atime_ns, st.st_mtime_ns + rng.choice([1, -1]) * delta))
                 if op.endswith("chmod"):
                     os.chmod(path, 0o755)
             elif op == "other_size":
